@@ -1100,6 +1100,102 @@ func propC17(c *Ctx) {
 	}
 	// 4. the same promises above the default limits
 	cxLargeInputs(c)
+	// 5. and under the other settings of size.DefaultRule / size.MaxObjectKeys (histories run under the shipped ones)
+	cxSizeRuleReceivers(c)
+}
+
+// cxSizeHandTexts: texts for Size.UnmarshalText / UnmarshalJSON that succeed or fail differently depending on
+// size.DefaultRule (unit on/off, JSON string form, JSON object form, unknown keys) and size.MaxObjectKeys.
+var cxSizeHandTexts = []string{"10 KiB", "10KiB", "1 000 kB", "7", "0", "", " ", "x", "10 XB", "1.5 kB", "-1", "18446744073709551616", "17 EiB", "1 ZB",
+	`"12 kB"`, `"12"`, `"x"`, `"12 kB`, `{"value":1,"unit":"KiB"}`, `{"value":1,"unit":"KiB","x":1}`, `{"x":{"value":[1,2]},"value":1,"unit":"KiB"}`, `{"value":1}`,
+	`{"unit":"B"}`, `{"value":-1,"unit":"B"}`, `{"value":1,"unit":"KiB"`, `{"value":1,"unit":"KiB"} x`, `{"value":1,"value":2,"unit":"B"}`, `{"value":"1","unit":"B"}`,
+	`[1]`, `null`, `true`, "12 ", " 12", "1e3", "12 B", `{"a":1,"b":2,"value":3,"unit":"B"}`, `{"a":1,"b":2,"c":3,"value":3,"unit":"kB"}`, `{"VALUE":18446744073709551615,"UNIT":"b"}`,
+	`{"value":16,"unit":"EiB"}`, `{"value":1.5,"unit":"B"}`, "1\u00a0kB", "1_000", "12 kB\n"}
+
+// cxSizeDefaultRules: every defined value of size.DefaultRule first, then values with unknown bits (extValues).
+func cxSizeDefaultRules() (defined, unknown []size.Rule) {
+	for _, v := range extValues(16) {
+		if v >= 0 && v < 16 {
+			defined = append(defined, size.Rule(v))
+		} else {
+			unknown = append(unknown, size.Rule(v))
+		}
+	}
+	return
+}
+
+// cxSizeRuleReceivers: Size.UnmarshalText and Size.UnmarshalJSON read size.DefaultRule and size.MaxObjectKeys; the histories
+// above run under the values the package ships with, so a failure path that exists only under another setting (unit
+// disabled, JSON forms off, unknown keys disallowed, a smaller key maximum) was never taken on a receiver holding a value.
+// Here every defined rule x five key maxima (and the rule values with unknown bits under the shipped maximum): a failing
+// call leaves the receiver exactly as it was, a succeeding one gives what it gives on a zero receiver, no call modifies
+// its input, and the value does not depend on the buffer afterwards.
+func cxSizeRuleReceivers(c *Ctx) {
+	defer cxSetDefaults()()
+	texts := append([]string{}, cxSizeHandTexts...)
+	nHand := len(texts)
+	for i := 0; i < 150; i++ {
+		t := cxSizeText(c.R)
+		if i%3 == 0 {
+			t = cxSizeJSON(c.R)
+		}
+		if i%2 == 0 {
+			t = cxMutate1(c.R, t)
+		}
+		texts = append(texts, t)
+	}
+	defined, unknown := cxSizeDefaultRules()
+	const sentinel = size.Size(0x1234567890ab)
+	one := func(dr size.Rule, mk int, text string, entry string) {
+		size.DefaultRule, size.MaxObjectKeys = dr, mk
+		call := func(z *size.Size, buf []byte) (err error, panicked bool) {
+			defer func() {
+				if recover() != nil {
+					panicked = true
+				}
+			}()
+			if entry == "UnmarshalJSON" {
+				return z.UnmarshalJSON(buf), false
+			}
+			return z.UnmarshalText(buf), false
+		}
+		z := sentinel
+		buf, full := cxGuarded([]byte(text))
+		err, panicked := call(&z, buf)
+		c.Check("")
+		where := fmt.Sprintf("size.DefaultRule = %d, size.MaxObjectKeys = %d, Size(%d).%s(%q)", int(dr), mk, uint64(sentinel), entry, text)
+		switch {
+		case panicked:
+			c.Fail("C17.size.panic", "", "%s: panic", where)
+		case !cxIntact([]byte(text), full):
+			c.Fail("C17.size.input", "", "%s: the call modified its input buffer: %x", where, full)
+		case err != nil && z != sentinel:
+			c.Fail("C17.size.recv", "", "%s returned %q but the receiver is now %d", where, err.Error(), uint64(z))
+		case err == nil:
+			after := z
+			cxScribble(full)
+			var w size.Size
+			wb, _ := cxGuarded([]byte(text))
+			if werr, wp := call(&w, wb); werr != nil || wp || w != after || z != after {
+				c.Fail("C17.size.overwrite", "", "%s succeeded and left %d (%d after the buffer was overwritten); on a zero receiver the same input gives %d %v", where, uint64(after), uint64(z), uint64(w), werr)
+			}
+		}
+	}
+	for _, dr := range defined {
+		for _, mk := range []int{cxDef.sizeMK, 0, 1, 2, 3} {
+			for _, text := range texts {
+				one(dr, mk, text, "UnmarshalText")
+				one(dr, mk, text, "UnmarshalJSON")
+			}
+		}
+	}
+	for _, dr := range unknown {
+		for _, text := range texts[:nHand] {
+			one(dr, cxDef.sizeMK, text, "UnmarshalText")
+			one(dr, cxDef.sizeMK, text, "UnmarshalJSON")
+		}
+	}
+	c.NT(int64(len(defined)*5*len(texts) + len(unknown)*nHand))
 }
 
 // cxLargeInputs: everything above ran under the globals the packages ship with, where no accepted input is longer
@@ -2363,6 +2459,85 @@ func cxLimitContract(c *Ctx, g *cxG) {
 	}
 }
 
+// cxSizeRuleLimits: the limit contract of Size.UnmarshalText / Size.UnmarshalJSON under EVERY size.DefaultRule (cxEntries
+// runs the two methods under the rule the package ships with; DefaultParser under all sixteen): whatever forms the rule
+// enables, an input longer than a non-zero limit is refused as too long - judged on the bytes as given, padding included -
+// with a message that states the two numbers, and nothing within the limit is refused for its length.
+func cxSizeRuleLimits(c *Ctx, g *cxG) {
+	defer cxSetDefaults()()
+	defined, unknown := cxSizeDefaultRules()
+	def := cxDef.sizeML
+	for ri, dr := range append(defined, unknown...) {
+		// totality first: the hand-picked texts (the empty one as nil and as an empty slice) under this rule, both methods
+		for _, text := range cxSizeHandTexts {
+			for _, entry := range []string{"UnmarshalText", "UnmarshalJSON", "UnmarshalText(nil)", "UnmarshalJSON(nil)"} {
+				if strings.HasSuffix(entry, "(nil)") && text != "" {
+					continue
+				}
+				size.DefaultRule, size.MaxInputLength = dr, def
+				text, entry := text, entry
+				g.run("size."+entry+".rule", func() string { return fmt.Sprintf("size.DefaultRule = %d, %s %q", int(dr), entry, text) }, func() {
+					var x size.Size
+					data := []byte(text)
+					if strings.HasSuffix(entry, "(nil)") {
+						data = nil
+					}
+					if strings.HasPrefix(entry, "UnmarshalJSON") {
+						_ = x.UnmarshalJSON(data)
+					} else {
+						_ = x.UnmarshalText(data)
+					}
+				})
+			}
+		}
+		limits := []int{def, 0, 1, 7 + c.R.Intn(300)}
+		if ri >= len(defined) {
+			limits = []int{def, 0}
+		}
+		for _, L := range limits {
+			lengths := []int{L - 1, L, L + 1, L + 2, 10*L + 1}
+			if L == 0 {
+				lengths = []int{1, def, def + 1, 10*def + 1}
+			}
+			for _, n := range lengths {
+				if n <= 0 {
+					continue
+				}
+				inputs := []string{cxLongText(c.R, "size", n), strings.Repeat(" ", n-1) + "7", "7" + strings.Repeat(" ", n-1),
+					strings.Repeat("\t", n/2) + "7" + strings.Repeat("\n", n-1-n/2), (`{"value":1,"unit":"B"` + strings.Repeat(" ", n))[:n-1] + "}",
+					(strings.Repeat(" ", n) + `"1kB"`)[5:], (`"1kB"` + strings.Repeat("\r\n", n))[:n], strings.Repeat("\xff", n)}
+				for _, in := range inputs {
+					for _, entry := range []string{"UnmarshalText", "UnmarshalJSON"} {
+						var err error
+						size.DefaultRule, size.MaxInputLength = dr, L
+						where := func() string {
+							return fmt.Sprintf("size.DefaultRule = %d, size.MaxInputLength = %d, %s(%s)", int(dr), L, entry, ruClip(in))
+						}
+						g.run("size."+entry+".rule", where, func() {
+							var x size.Size
+							if entry == "UnmarshalJSON" {
+								err = x.UnmarshalJSON([]byte(in))
+							} else {
+								err = x.UnmarshalText([]byte(in))
+							}
+						})
+						over := L != 0 && len(in) > L
+						switch {
+						case over && !errors.Is(err, size.ErrInputTooLong):
+							c.Fail("C18.limit.size.rule", "", "%s: length %d over limit %d: %v", where(), len(in), L, err)
+						case !over && errors.Is(err, size.ErrInputTooLong):
+							c.Fail("C18.limit.size.rule.spurious", "", "%s: length %d within limit %d: %v", where(), len(in), L, err)
+						case over && !strings.Contains(err.Error(), strconv.Itoa(len(in))+" > "+strconv.Itoa(L)):
+							c.Fail("C18.limit.size.rule.numbers", "", "%s: message %q does not state %d > %d", where(), err, len(in), L)
+						}
+					}
+				}
+				c.NT(1)
+			}
+		}
+	}
+}
+
 // cxNearMissBases: one or two valid texts of every type (the bases of the near-miss stream of propC18).
 var cxNearMissBases = []string{"2024-02-29", "20240229", "MCMXCIV", "mmxxiv", "v1.2.3-rc.1+b.7", "1.0.0", "10 KiB", "1 000 kB", `{"value":1,"unit":"KiB"}`, `"12kB"`,
 	"ed7059f3-0000-4000-8000-000000000000", "URN:uuid:ED7059F3-0000-4000-8000-00000000ABCD"}
@@ -2772,6 +2947,7 @@ func propC18(c *Ctx) {
 	t1 := time.Now()
 	// 2. the limit contract on every entry point
 	cxLimitContract(c, g)
+	cxSizeRuleLimits(c, g)
 	cxHugeInputs(c, g)
 	cxNegativeLimits(c, g)
 	cxLimitMagnitude(c, g)
